@@ -13,8 +13,11 @@ import (
 	"encoding/json"
 	"flag"
 	"fmt"
+	"go/types"
 	"os"
+	"regexp"
 	"sort"
+	"strings"
 
 	"golang.org/x/tools/go/ssa"
 )
@@ -151,6 +154,28 @@ func cmdBindings(args []string) int {
 	}
 	sort.Strings(all.Params)
 	out["__functions__"] = all
+	// the fields of the module's struct types as of now, "name|type" in declaration order (see fieldAliases)
+	for _, p := range e.pkgs {
+		if p.Types == nil || !inModule(p.Types) {
+			continue
+		}
+		sc := p.Types.Scope()
+		for _, n := range sc.Names() {
+			tn, ok := sc.Lookup(n).(*types.TypeName)
+			if !ok || tn.IsAlias() {
+				continue
+			}
+			st, ok := tn.Type().Underlying().(*types.Struct)
+			if !ok {
+				continue
+			}
+			b := &fnBindings{Locals: map[string]string{}}
+			for i := 0; i < st.NumFields(); i++ {
+				b.Params = append(b.Params, st.Field(i).Name()+"|"+st.Field(i).Type().String())
+			}
+			out["__type__:"+p.Types.Path()+"."+n] = b
+		}
+	}
 	data, _ := json.MarshalIndent(out, "", " ")
 	if err := os.WriteFile(bindingsPath, data, 0o644); err != nil {
 		fmt.Fprintln(os.Stderr, err)
@@ -211,4 +236,152 @@ func (e *Engine) knownFunction(name string) bool {
 		}
 	}
 	return e.knownFns[name]
+}
+
+
+// Field renames.  Contracts name struct fields (in expressions, in type clauses, in waive
+// patterns and through obligation names in the known-findings file).  The bindings record
+// the fields of every struct type of the module; a recorded field that the type no longer
+// has is looked for among the fields the type has gained since: the one at the same
+// position if the field count is unchanged and the type agrees, otherwise the only new
+// field of the same type.  Fields that still exist are never rebound.
+var (
+	fieldAliasByType = map[string]map[string]string{} // "pkg.T" -> recorded name -> current name
+	fieldRevWords    = map[string]string{}            // current name -> recorded name (obligation names stay in contract vocabulary)
+	fieldRevRe       *regexp.Regexp
+)
+
+func (e *Engine) computeFieldAliases() {
+	if e.bindings == nil {
+		e.bindings = loadBindings()
+	}
+	for key, b := range e.bindings {
+		if !strings.HasPrefix(key, "__type__:") {
+			continue
+		}
+		tkey := strings.TrimPrefix(key, "__type__:")
+		i := strings.LastIndex(tkey, ".")
+		if i < 0 {
+			continue
+		}
+		var st *types.Struct
+		for _, p := range e.pkgs {
+			if p.Types != nil && p.Types.Path() == tkey[:i] {
+				if tn, ok := p.Types.Scope().Lookup(tkey[i+1:]).(*types.TypeName); ok {
+					st, _ = tn.Type().Underlying().(*types.Struct)
+				}
+			}
+		}
+		if st == nil {
+			continue
+		}
+		cur := map[string]bool{}
+		for j := 0; j < st.NumFields(); j++ {
+			cur[st.Field(j).Name()] = true
+		}
+		rec := map[string]bool{}
+		for _, r := range b.Params {
+			rec[strings.SplitN(r, "|", 2)[0]] = true
+		}
+		used := map[string]bool{}
+		for j, r := range b.Params {
+			parts := strings.SplitN(r, "|", 2)
+			if len(parts) != 2 || cur[parts[0]] {
+				continue
+			}
+			name, typ := parts[0], parts[1]
+			to := ""
+			if len(b.Params) == st.NumFields() && !rec[st.Field(j).Name()] && st.Field(j).Type().String() == typ {
+				to = st.Field(j).Name()
+			} else {
+				n := 0
+				for k := 0; k < st.NumFields(); k++ {
+					if f := st.Field(k); !rec[f.Name()] && f.Type().String() == typ {
+						to = f.Name()
+						n++
+					}
+				}
+				if n != 1 {
+					to = ""
+				}
+			}
+			if to == "" || used[to] {
+				continue
+			}
+			used[to] = true
+			if fieldAliasByType[tkey] == nil {
+				fieldAliasByType[tkey] = map[string]string{}
+			}
+			fieldAliasByType[tkey][name] = to
+			fieldRevWords[to] = name
+		}
+	}
+	if len(fieldRevWords) > 0 {
+		var ws []string
+		for w := range fieldRevWords {
+			ws = append(ws, regexp.QuoteMeta(w))
+		}
+		sort.Strings(ws)
+		fieldRevRe = regexp.MustCompile(`\b(` + strings.Join(ws, "|") + `)\b`)
+	}
+	ren := func(tkey string, xs []string) {
+		for i, x := range xs {
+			if to, ok := fieldAliasByType[tkey][x]; ok {
+				xs[i] = to
+			}
+		}
+	}
+	for tkey, ts := range e.specs.types {
+		if fieldAliasByType[tkey] == nil {
+			continue
+		}
+		for i := range ts.Guarded {
+			ren(tkey, ts.Guarded[i].Fields)
+			if to, ok := fieldAliasByType[tkey][ts.Guarded[i].Lock]; ok {
+				ts.Guarded[i].Lock = to
+			}
+		}
+		ren(tkey, ts.Final)
+		for i := range ts.FinalDecls {
+			ren(tkey, ts.FinalDecls[i].Fields)
+		}
+		for i := range ts.Frozen {
+			ren(tkey, ts.Frozen[i].Fields)
+			ren(tkey, ts.Frozen[i].Except)
+		}
+		for i := range ts.Transient {
+			ren(tkey, ts.Transient[i].Fields)
+		}
+		for i := range ts.Private {
+			ren(tkey, ts.Private[i].Fields)
+		}
+		for i := range ts.LockInvs {
+			if to, ok := fieldAliasByType[tkey][ts.LockInvs[i].Lock]; ok {
+				ts.LockInvs[i].Lock = to
+			}
+		}
+		ren(tkey, ts.Owns)
+		ren(tkey, ts.Atomic)
+		ren(tkey, ts.Confined)
+	}
+}
+
+// contractVocabulary: an obligation name with current field names put back to the recorded ones.
+func contractVocabulary(name string) string {
+	if fieldRevRe == nil {
+		return name
+	}
+	return fieldRevRe.ReplaceAllStringFunc(name, func(w string) string { return fieldRevWords[w] })
+}
+
+func aliasedField(t types.Type, name string) (string, bool) {
+	if len(fieldAliasByType) == 0 {
+		return "", false
+	}
+	n, ok := t.(*types.Named)
+	if !ok || n.Obj().Pkg() == nil {
+		return "", false
+	}
+	to, ok := fieldAliasByType[n.Obj().Pkg().Path()+"."+n.Obj().Name()][name]
+	return to, ok
 }
